@@ -502,17 +502,17 @@ class MSpec:
         m = self._GXm(extra_constraints)
         if c.branch(m == 0, "unsat?"):
             raise UnsatError("spec: unsat")
-        e = asts[0]
         n = proxies.concretize(n) if not isinstance(n, int) else n
-        # a set S of assignments: all feasible, values pairwise distinct, |S| <= n, complete when |S| < n
+        # a set S of assignments: all feasible, value TUPLES pairwise distinct, |S| <= n, complete when |S| < n
+        same = lambda i, j: z3.And(*[a.table[i] == a.table[j] for a in asts])
         subsets = [s for s in range(1, 1 << UM) if bin(s).count("1") <= n]
         alts = []
         for s in subsets:
             idx = [i for i in range(UM) if s >> i & 1]
             feas = z3.And(*[_bit(m, i) for i in idx])
-            dist = z3.Distinct(*[e.table[i] for i in idx]) if len(idx) > 1 else z3.BoolVal(True)
+            dist = z3.And(*[z3.Not(same(i, j)) for ii, i in enumerate(idx) for j in idx[ii + 1:]]) if len(idx) > 1 else z3.BoolVal(True)
             if len(idx) < n:
-                comp = z3.And(*[z3.Implies(_bit(m, j), z3.Or(*[e.table[j] == e.table[i] for i in idx])) for j in range(UM)])
+                comp = z3.And(*[z3.Implies(_bit(m, j), z3.Or(*[same(j, i) for i in idx])) for j in range(UM)])
             else:
                 comp = z3.BoolVal(True)
             alts.append(z3.And(feas, dist, comp))
@@ -570,7 +570,7 @@ def _opt_cached(U, e, models, signed, is_max):
                              for m in models])
 
 
-def _mc_inv(c, s, e, label, assume=False):
+def _mc_inv(c, s, e, label, assume=False, only_eval=False):
     U = s.U
     models = list(s._models)
     conds = []
@@ -578,7 +578,7 @@ def _mc_inv(c, s, e, label, assume=False):
         conds.append((f"{label}/inv-models-satisfy-constraints", _bit(U.G, m.idx)))
     if dict.__contains__(s._eval_exhausted, e.hash()):
         conds.append((f"{label}/inv-eval-exhausted", _values_exist(U, e, models)))
-    for flag, sg, mx in (("_max_exhausted", False, True), ("_min_exhausted", False, False),
+    for flag, sg, mx in () if only_eval else (("_max_exhausted", False, True), ("_min_exhausted", False, False),
                          ("_max_signed_exhausted", True, True), ("_min_signed_exhausted", True, False)):
         if dict.__contains__(getattr(s, flag), e.hash()):
             conds.append((f"{label}/inv{flag}", _opt_cached(U, e, models, sg, mx)))
@@ -599,7 +599,8 @@ class FlagDict(dict):
         raise Undecided("an exhaustion set assumed irrelevant to this method was read")
 
 
-RELEVANT = {"min": ["_eval_exhausted", "_min_exhausted", "_min_signed_exhausted"],
+RELEVANT = {"batch_eval": ["_eval_exhausted"],
+            "min": ["_eval_exhausted", "_min_exhausted", "_min_signed_exhausted"],
             "max": ["_eval_exhausted", "_max_exhausted", "_max_signed_exhausted"],
             "eval": ["_eval_exhausted"], "solution": [], "satisfiable": [], "_add": FLAGS}
 
@@ -624,20 +625,29 @@ def _mc_state(c, H, method):
             dict.__setitem__(d, e.hash(), e)
             setattr(s, f, d)
     _mc_inv(c, s, e, "init", assume=True)
+    if method == "batch_eval":
+        # a second expression with its own exhaustion flag (what is known about each expression separately says nothing about
+        # the COMBINATIONS of their values that the cached models realise)
+        e2 = EH("f")
+        s.e2 = e2
+        if c.choose([True, True], "second-expression-exhausted") == 1:
+            s._eval_exhausted[e2.hash()] = e2
+        _mc_inv(c, s, e2, "init", assume=True, only_eval=True)
     if not c.path_feasible():
         raise PathEnd()
     return s, e
 
 
-MC_METHODS = ["min", "max", "eval", "solution", "satisfiable", "_add"]
+MC_METHODS = ["min", "max", "eval", "batch_eval", "solution", "satisfiable", "_add"]
 
 
 def ob_modelcache(method, tier="quick", faults=False):
     """faults=True (C17): the stack below may raise ClaripySolverInterruptError at every call.  The mixin must then either
     propagate the error or still return a correct answer (the normal postconditions), and the cache invariant must hold on
     the exceptional exit too - a later query must not be answered from a cache that the aborted call left half-updated."""
-    global UM
+    global UM, WV
     UM = 3 if (tier == "quick" or faults) else 4       # size of the semantic universe (assignments)
+    WV = 1 if method == "batch_eval" else 2            # value width (two expressions: 1-bit values keep the tuple sets small)
     FAULTS["on"] = bool(faults)
     ns = load_modelcache()
     H = type("HM", (ns["ModelCacheMixin"], MSpec), {})
@@ -680,6 +690,21 @@ def ob_modelcache(method, tier="quick", faults=False):
                                                           for j in range(UM)]), "eval returned fewer values than requested although more exist")
                 if len(vals) > n:
                     c.fail(label + "/count", "more values than requested")
+            elif method == "batch_eval":
+                e2 = s.e2
+                n = 1 + c.choose([True, True, True], "n")
+                r = s.batch_eval([e, e2], n, extra_constraints=extra)
+                tups = [(z3.Extract(WV - 1, 0, proxies._bv(t[0])), z3.Extract(WV - 1, 0, proxies._bv(t[1]))) for t in r]
+                for (a, b) in tups:
+                    c.check(label + "/feasible", z3.Or(*[z3.And(_bit(GX, i), e.table[i] == a, e2.table[i] == b) for i in range(UM)]), "batch_eval returned an infeasible tuple")
+                for ii in range(len(tups)):
+                    for jj in range(ii + 1, len(tups)):
+                        c.check(label + "/distinct", z3.Or(tups[ii][0] != tups[jj][0], tups[ii][1] != tups[jj][1]), "batch_eval returned the same tuple twice")
+                if len(tups) < n:
+                    c.check(label + "/complete", z3.And(*[z3.Implies(_bit(GX, j), z3.Or(*[z3.And(e.table[j] == a, e2.table[j] == b) for (a, b) in tups]) if tups else z3.BoolVal(False))
+                                                          for j in range(UM)]), "batch_eval returned fewer tuples than requested although more exist")
+                if len(tups) > n:
+                    c.fail(label + "/count", "more tuples than requested")
             elif method == "solution":
                 v = SymInt.fresh("v", 0, (1 << WV) - 1)
                 r = s.solution(e, v, extra_constraints=extra)
@@ -708,6 +733,8 @@ def ob_modelcache(method, tier="quick", faults=False):
             c.fail(label + "/raises", f"{type(ex).__name__}: {ex} " + traceback.format_exc()[-300:], kind="raises")
             return "raised"
         _mc_inv(c, s, e, label)
+        if method == "batch_eval":
+            _mc_inv(c, s, s.e2, label + "[second-expression]", only_eval=True)
         return method + (":answered-despite-fault" if c.ghost.get("stack_raised") else "")
 
     return explore(body, {"budget_s": 900, "max_depth": 4000, "max_failures": 3, "timeout_ms": 20000, "max_paths": 2000000})
